@@ -17,3 +17,16 @@ pub assume_specification<I: Iterator, P: FnMut(&I::Item) -> bool>[ <core::iter::
 // [A-std] Range<usize>::clone yields an equal range
 pub assume_specification<Idx: Clone>[ <core::ops::Range<Idx> as Clone>::clone ](r: &core::ops::Range<Idx>) -> (c: core::ops::Range<Idx>)
     ensures (forall|a: Idx, b: Idx| call_ensures(Idx::clone, (&a,), b) ==> a == b) ==> c == *r;
+
+// [A-std] Range::is_empty: `!(start < end)`; for usize bounds `<` is the order of the integers
+pub mod verif_range {
+    use vstd::prelude::*;
+    pub uninterp spec fn range_lt<Idx>(a: Idx, b: Idx) -> bool;
+    pub broadcast axiom fn axiom_range_lt_usize(a: usize, b: usize)
+        ensures #[trigger] range_lt::<usize>(a, b) == (a < b);
+}
+use verif_range::*;
+broadcast use verif_range::axiom_range_lt_usize;
+pub assume_specification<Idx: PartialOrd<Idx>>[ core::ops::Range::<Idx>::is_empty ](r: &core::ops::Range<Idx>) -> (b: bool)
+    where Idx: PartialOrd<Idx>,
+    ensures b == !range_lt(r.start, r.end);
